@@ -647,7 +647,14 @@ def config_candidates(H, h):
             if sep in h:
                 cands.append(h[: h.rindex(sep) + 1])
     cands += [c[:-1] for c in list(cands) if c and c[-1] in "$,:|" + ("." if h.startswith("grub.") else "")]
-    return [c for c in dict.fromkeys(cands) if c and c != h]
+    prim = [c for c in dict.fromkeys(cands) if c and c != h]
+    # secondary candidates: every prefix that ends at (or just before) a field separator -- shorter config forms such as
+    # 'crypt$ab' of 'crypt$ab$abDIGEST'.  They may drop more than the digest, so only stability is demanded of them
+    sec = []
+    for i, ch in enumerate(h):
+        if ch in "$,:|}" + ("." if h.startswith("grub.") else ""):
+            sec += [h[:i], h[: i + 1]]
+    return prim + [("secondary", c) for c in dict.fromkeys(sec) if c and c != h and c not in prim]
 
 
 def eval_config_only(case):
@@ -663,6 +670,9 @@ def eval_config_only(case):
     except Exception:  # noqa: BLE001
         return []
     for c in config_candidates(H, h):
+        secondary = isinstance(c, tuple)
+        if secondary:
+            c = c[1]
         for form, inp in (("str", c), ("bytes", c.encode("ascii") if c.isascii() else None)):
             if inp is None:
                 continue
@@ -690,7 +700,7 @@ def eval_config_only(case):
             if hasattr(H, "genhash"):
                 try:
                     g1, g2 = H.genhash(p, inp, **ctx), H.genhash(p, s2, **ctx)
-                    if g1 != g2 or g1 != h:
+                    if g1 != g2 or (g1 != h and not secondary):
                         out.append((key + "genhash", f"{name}.genhash(p, {inp!r}) = {g1!r}, genhash(p, {s2!r}) = {g2!r}, hash() under the same settings {h!r}"))
                 except Exception as e:  # noqa: BLE001
                     out.append((key + f"genhash_raises:{type(e).__name__}", f"{name}.genhash(p, {inp!r} / {s2!r}) raised {e!r}"))
